@@ -19,7 +19,8 @@ Tables (all `List (String × List String)`, kinds and fields sorted):
   hashFlips                 rows where some probe changed `hash`
   keyFlips / keyFlipsSome   rows where every / some probe changed the persistent key
 and row lists (`List (String × String)`): unprobedRows (no second valid value),
-internalRows (the API forbids the change: `tagged` / `with_tagged_axis` raise),
+internalRows (the public API cannot produce the change: `tagged` / `with_tagged_axis`
+raise, or no public constructor yields the mutant — see `public_attempts`),
 tracebackRows, identityKinds, and the exclusions rendered from the committed
 known_findings.json (never from today's observations): knownEqRows,
 knownEqSpuriousRows, knownHashRows, knownKeyRows, knownKeyUnstableRows,
@@ -221,6 +222,8 @@ def probe_all(specs=None, with_loopy=True) -> tuple[list[Probe], dict]:
     keyb = PytatoKeyBuilder()
     probes: list[Probe] = []
     info: dict[str, Any] = {"fields": {}, "identity": {}, "internal": [], "problems": []}
+    attempts = public_attempts()
+    reachable: dict[tuple[str, str], bool] = {}
     for sname in sorted(specs):
         sp = specs[sname]
         base = sp.base
@@ -271,6 +274,14 @@ def probe_all(specs=None, with_loopy=True) -> tuple[list[Probe], dict]:
                 p = Probe(kind, sname, dcf, vi, row, desc=f"{sname}: {dcf} -> {_short(val)}")
                 observe(p, base, mut, keyb)
                 probes.append(p)
+                att = attempts.get((kind, row))
+                if att is not None:
+                    reachable.setdefault((kind, row), False)
+                    try:
+                        reachable[(kind, row)] = reachable[(kind, row)] or bool(att(base, mut))
+                    except Exception as e:
+                        info["problems"].append(f"public-attempt:{kind}.{row}:{type(e).__name__}")
+                        reachable[(kind, row)] = True
         for dcf, val in reorder_variants(base):
             mut = kinds.mutate(base, dcf, val)
             d = diff_rows(base, mut)
@@ -284,7 +295,49 @@ def probe_all(specs=None, with_loopy=True) -> tuple[list[Probe], dict]:
                       desc=f"{sname}: {dcf} with insertion order reversed")
             observe(p, base, mut, keyb)
             probes.append(p)
+    for row, ok in sorted(reachable.items()):
+        if not ok and row not in info["internal"]:
+            info["internal"].append(row)
     return probes, info
+
+
+# --------------------------------------------------------------------------
+# rows reachable only through `dataclasses.replace` (DESIGN §5 C04: marker `internal`)
+# --------------------------------------------------------------------------
+
+def _csr_shape_public(base, mut) -> bool:
+    """can the public constructors build the product with the mutant's matrix shape
+    and everything else unchanged?"""
+    import pytato as pt
+    m = mut.matrix
+    try:
+        prod = pt.make_csr_matrix(m.shape, m.elem_values, m.elem_col_indices, m.row_starts,
+                                  tags=m.tags, axes=m.axes) @ base.array
+    except Exception:
+        return False
+    return not diff_rows(prod, mut)
+
+
+def _has_param(fn, name: str) -> bool:
+    import inspect
+    try:
+        return name in inspect.signature(fn).parameters
+    except (TypeError, ValueError):
+        return True
+
+
+def public_attempts():
+    """(kind, row) -> predicate(base, mutant): is the mutant reachable through the
+    public constructors?  Evaluated on the live code; rows for which it is False
+    are `internal` (probed and reported, excluded from the obligations)."""
+    import pytato as pt
+    return {
+        ("CSRMatmul", "matrix.shape"): _csr_shape_public,
+        # the matrix dtype is derived from elem_values by the only constructor
+        ("CSRMatmul", "matrix.dtype"): lambda b, m: _has_param(pt.make_csr_matrix, "dtype"),
+        # the reduction variable name is fixed by the only constructor
+        ("CSRMatmul", "reduction_var"): lambda b, m: _has_param(pt.sparse_matmul, "reduction_var"),
+    }
 
 
 # --------------------------------------------------------------------------
@@ -477,7 +530,7 @@ def render(t: Tables) -> str:
         _tbl("keyFlipsSome", t.key_some, t.kinds, "rows where SOME probe pair got different persistent keys"),
         _rows("unprobedRows", t.unprobed, "rows without a second valid value (nothing to observe)"),
         _rows("internalRows", t.internal,
-              "rows the public API forbids changing (`tagged`/`with_tagged_axis` raise)"),
+              "rows whose change the public API cannot produce (only dataclasses.replace)"),
         _rows("tracebackRows", t.traceback, "creation-traceback rows (exempt by the property statements)"),
         _strs("identityKinds", t.identity_kinds, "kinds whose instances compare by object identity"),
         _strs("documentedIdentityKinds", DOCUMENTED_IDENTITY,
